@@ -8,7 +8,7 @@ CLAIMED = {
             "bounded symbolic model checking of the real MIR: every control path of the encoded functions with all callee results symbolic; one inductive step of the output thread from an arbitrary status; solver decides each obligation, each model is replayed on the native binary",
             "trusts rustc's MIR printer, mirsym's MIR reading and summaries (Context/map_err passthrough, atomics, logger dispatch), z3; the similar-based diff equality and output text are outside", "5/C13"),
     "C14": ("MIR symbolic execution (mirsym) of format_file, worker closures, format_code/format_ast + z3 path queries; CLI replay",
-            "bounded symbolic model checking of the real MIR: fs writes are reachable only after format_code Ok, not under --check, only when the text differs, with (path, formatted) arguments; every fs-mutating call site of the crate is accounted for",
+            "bounded symbolic model checking of the real MIR: fs writes are reachable only after format_code Ok, not under --check, only when the text differs, with (path, formatted) arguments; every fs-mutating call site of the crate is accounted for; format() gives up early only for set-up / configuration / ignore-file errors and every way out of the walker loop passes pool.join() (CFG obligation: no worker is cut off mid-write by the process exit)",
             "trusts rustc's MIR printer, mirsym and its summaries, z3; atomicity of fs::write, thread pool and channel are assumed", "5/C14"),
 }
 
@@ -17,7 +17,7 @@ CLAIMED["C17"] = ("MIR symbolic execution (mirsym) of format_string, output-thre
     "trusts rustc's MIR printer, mirsym and its summaries (into_bytes identity, Context passthrough), z3", "5/C17")
 
 CLAIMED["C19"] = ("MIR-extracted atomic-operation programs of the output thread and the logger + z3 symbolic-schedule encoding (positions in the SeqCst order as Ints); schedule replay on the cfg(stylua_verif) build",
-    "bounded symbolic model checking over ALL interleavings of k<=2 (thorough 3) results handled by the output thread and j<=1 (2) walker error logs; thread programs are regenerated from the MIR on every run; a counterexample schedule is replayed deterministically through the hooked binary",
+    "bounded symbolic model checking over ALL interleavings of k<=2 (thorough 3) results handled by the output thread and j<=1 (2) walker error logs; thread programs are regenerated from the MIR on every run; a counterexample schedule is replayed deterministically through the hooked binary; census: no static item or thread-local access other than the two status atomics, immutable tables and write-once lazy_statics survives from one file to the next; the file / stdin job closures are only ever handed to ThreadPool::execute",
     "trusts rustc's MIR printer, mirsym + atomics summary, z3; single-location coherence; threadpool/crossbeam contracts", "5/C19")
 
 CLAIMED["C05"] = ("MIR rule extraction (mirsym, compositional mode) of the expression formatter + z3 queries per tree shape with symbolic operators/leaf kinds/layout predicates against a grammar oracle; Lua-source replay",
@@ -48,7 +48,7 @@ CLAIMED["C11"] = ("format_function_call over a two-suffix list (the ObscureWitho
     "trusts rustc's MIR printer, mirsym, z3; 'every layout path of every construct' beyond these kernels is outside", "5/C11")
 
 CLAIMED["C12"] = ("mirsym over partition_nodes_into_groups (one loop step from an arbitrary parts tail), the ignore-guard closure, sort_requires' rebuild step and format_ast's enabled test; z3; require-block battery replay",
-    "bounded symbolic model checking of the kernels: a group boundary is opened iff first / after Other / kind differs / more than one line after the END of the previous require; Skip or NotInRange members block sorting; the ignore state is toggled over the top-level statements (ignore start/end regions); sortable groups get one stable sort_by_key; the new first member keeps its own leading trivia; sorting runs iff enabled",
+    "bounded symbolic model checking of the kernels: a statement is a member only after exactly one name and one value were established; a group boundary is opened iff first / after Other / kind differs / more than one line after the END of the previous require; Skip or NotInRange members block sorting; the ignore state is toggled over the top-level statements (ignore start/end regions) and written back to sort_requires' own variable; sortable groups get one stable sort_by_key; the new first member keeps its own leading trivia; sorting runs iff enabled",
     "trusts rustc's MIR printer, mirsym, z3, std's stable sort; get_expression_kind's string tests and update_positions are outside", "5/C12")
 
 CLAIMED["C20"] = ("override dominance over every configuration route of src/cli/config.rs (origin analysis, vcheck/cfgorigin.py) and serde's derive-generated key/variant visitors (unknown => Err); mirsym over load_overrides (bin MIR, convert_enum! conversions inlined, one flag at a time + all flags wired) and editorconfig::load (lib MIR with the editorconfig feature, Properties::get::<K>() symbolic per key); z3 against the same-name / documented mapping; three-carrier replay",
